@@ -12,7 +12,7 @@ def main():
   import mujoco_warp as mjw
   from mujoco_warp import test_data
 
-  wp.config.quiet = True
+  wp.config.log_level = wp.LOG_WARNING
   t0 = time.time()
   for name in ("constraints.xml", "collision.xml", "humanoid/humanoid.xml", "pendula.xml"):
     try:
